@@ -57,9 +57,9 @@ def add_foreign_attributes(ctx, g, rng):
     keys = rng.sample(FOREIGN_NODE_KEYS, rng.randint(1, 3))
     for v, d in g.nodes(data=True):
         for k in keys:
-            d[k] = rng.choice([f"{d.get('element_symbol', 'X')}{v}", v + 100, (v, "t"), 1.5])
+            d[k] = rng.choice([f"{d.get('element_symbol', 'X')}{v}", v + 100, (v, "t"), 1.5, None, 0, "", False])
     for u, v, d in g.edges(data=True):
-        d["weight"] = rng.choice([1, 2.5])
+        d["weight"] = rng.choice([1, 2.5, None, 0])
         d["name"] = f"b{min(u, v)}_{max(u, v)}"
     g.graph["name"] = "annotated molecule"
     ctx.count("cov_foreign_attributes_with_common_names")
